@@ -52,6 +52,17 @@ def r1(cx, by):
     # from_token pushes onto each key list (MIR-checked in C11.R2): cross-reference
     ft = cx.ast.fn("varlink_parser/src/lib.rs", "from_token")
     pushes = sorted({re.sub(r"^.*\.", "i.", nz(e["recv"])) for f2 in cx.ast.file("varlink_parser/src/lib.rs")["_fns"] for e in f2.events if e["k"] == "method" and e["text"] == "push" and nz(e["recv"]).endswith("_keys")})
+    if pushes != ["i.error_keys", "i.method_keys", "i.typedef_keys"]:
+        # the pushes may sit in a helper that receives the list by reference: ask the MIR view of from_token which fields of the IDL
+        # under construction the pushed-onto vectors are
+        from .C11 import recv_fields
+        from vlib.cfg import DefUse
+        fb = cx.mir.one("varlink_parser", "IDL::<'a>::from_token")
+        fdu = DefUse(fb)
+        got = set()
+        for t in fb.calls("=push"):
+            if t.args: got |= {"i." + f for f in recv_fields(fb, fdu, t.args[0]) if f.endswith("_keys")}
+        pushes = sorted(got)
     cx.check(pushes == ["i.error_keys", "i.method_keys", "i.typedef_keys"], "C10.R1", "parser:from_token:key-lists-filled", "varlink_parser/src/lib.rs:%d" % ft.line, "key lists pushed: %s" % pushes, note_ok="one push per member kind, in order of appearance")
 
 
